@@ -70,6 +70,8 @@ static void xfree(unsigned char *q){ if(q&&q!=g_zero) free(q); }
 static struct { long bytes; void *p; } g_pcm[512]; static int g_npcm;
 static void *pcmbuf(long bytes){
    int i; if(bytes<=0) return g_zero;
+   /* very large blocks (255-channel layouts x 1 s): one exact-size block at a time, re-allocated when the size changes */
+   if (bytes>(4L<<20)){ static void *big; static long bigsz; if(bigsz!=bytes){ free(big); big=malloc(bytes); bigsz=bytes; if(!big){ fprintf(stderr,"oom\n"); exit(2); } } return big; }
    for(i=0;i<g_npcm;i++) if(g_pcm[i].bytes==bytes) return g_pcm[i].p;
    if(g_npcm==512){ free(g_pcm[0].p); g_pcm[0]=g_pcm[--g_npcm]; }
    g_pcm[g_npcm].bytes=bytes; g_pcm[g_npcm].p=malloc(bytes); if(!g_pcm[g_npcm].p){ fprintf(stderr,"oom\n"); exit(2); }
